@@ -172,6 +172,18 @@ fn eval(a: &[&str]) -> String {
             let x = ring.reduce(int(a[1]));
             show_u(&x.pow(&uint(a[2])).residue())
         }
+        "imodmul" => {
+            // products (and a square, a sum, a difference) of residues that may be shorter than the modulus
+            let ring = ConstDivisor::new(uint(a[3]));
+            let (x, y) = (ring.reduce(int(a[1])), ring.reduce(int(a[2])));
+            let p1 = (&x * &y).residue();
+            let mut z = x.clone();
+            z *= &y;
+            let sq = (&x * &x).residue();
+            let s = (&x + &y).residue();
+            let d = (x - y).residue();
+            format!("{} {} {} {} {}", show_u(&p1), show_u(&z.residue()), show_u(&sq), show_u(&s), show_u(&d))
+        }
         "imodinv" => {
             let ring = ConstDivisor::new(uint(a[2]));
             match ring.reduce(int(a[1])).inv() {
